@@ -75,8 +75,13 @@ def eager_cat_homogeneous(name, part_name, *parts):
     dim = 0
     white_vec = ops.cat(white_vecs, dim)
     prec_sqrt = ops.cat(prec_sqrts, dim)
-    inputs[name] = Bint[white_vec.shape[dim]]
-    int_inputs[name] = inputs[name]
+    # the concatenated input is the leading batch dim, also when it is renamed
+    int_inputs = OrderedDict(
+        [(name, Bint[white_vec.shape[dim]])]
+        + [(k, v) for k, v in int_inputs.items() if k != name]
+    )
+    inputs = int_inputs.copy()
+    inputs.update(real_inputs)
     result = Gaussian(white_vec, prec_sqrt, inputs)
     if any(d is not None for d in discretes):
         for i, d in enumerate(discretes):
